@@ -227,7 +227,7 @@ func monitor(cs caseSpec, o obs) *cf.Monitor {
 		if nSetup == 1 && nCleanup != 1 {
 			return fail("hooks:no-cleanup", "call %d: Setup ran but Cleanup ran %d times", ci, nCleanup)
 		}
-		if nSetup == 1 && call.SetupOK && len(call.NoCreate) == 0 {
+		if nSetup == 1 && call.SetupOK && len(call.NoCreate) == 0 && len(call.Faults) == 0 {
 			switch call.Trigger {
 			case "none", "ctx-steady", "hb-steady", "close-steady", "part-steady":
 				for _, p := range assigned {
